@@ -119,6 +119,115 @@ def report_oracle(ctx, pid, out):
                        "observed": m["observed"], "how": f"./check {pid} --replay <this file>"})
 
 
+# ---------------------------------------------------------------------------------------------
+# T1: structuring every value that has a typed reading succeeds with a typed reading (Props/Total.lean)
+
+TOTAL_HDR = "import LspVerif.Props.Total\nimport LspVerif.Props.C04\nimport GenEnv\nimport GenBad\nopen LspVerif\n"
+
+MAIN_REP = """import LspVerif.Driver.Rep
+import GenEnv
+import GenBad
+def main : IO Unit := LspVerif.Driver.repMain Gen.env Gen.bad
+"""
+
+LOCALISE = """import LspVerif.Props.Total
+import GenEnv
+import GenBad
+open LspVerif
+def showT (t : PyTy) : String := (repr t).pretty 100000
+def main : IO Unit := do
+  for t in progFailures Gen.env Gen.bad Gen.progTys do IO.println ("PROG " ++ showT t)
+  for c in clsFailures Gen.env Gen.bad Gen.progTys do IO.println ("CLS " ++ c.toString)
+"""
+
+
+def excluded_annotations(ctx):
+    """annotations excluded from T1/T2 because of an open known finding (Lean terms)"""
+    out = []
+    for k in ctx.known:
+        if k.get("status") == "open" and k.get("excluded_annotation") and k["excluded_annotation"] not in out:
+            out.append(k["excluded_annotation"])
+    return out
+
+
+def total_layers(ctx, pid):
+    """Modules instantiating T1 on the regenerated environment.  Returns (layers, theorem names)."""
+    import re
+    import tableprop
+    bad = excluded_annotations(ctx)
+    genbad = ("GenBad", "import LspVerif.Core.Rep\nimport LspVerif.Core.Name\nopen LspVerif\nnamespace Gen\n"
+              f"def bad : List PyTy := {common.lean_list(bad)}\nend Gen\n")
+    txt = (ctx.work / "GenPkg.lean").read_text()
+    ncls = len(re.findall(r"^def c\d+ : Cls", txt, re.M))
+    layer, lemma, imports = tableprop.sliced_all(TOTAL_HDR, f"{pid}T1c", "Gen.env.pkg.classes", "clsOK Gen.env Gen.bad Gen.progTys", 24, ncls, f"{pid}_T1_classes_chk")
+    progs = (f"prog", TOTAL_HDR + f"""
+/-- every program that dispatches a union (registered hook or the disambiguator cattrs built) passes the dispatch checker -/
+theorem {pid}_T1_progs : progsOK Gen.env Gen.bad Gen.progTys = true := by decide +kernel
+/-- the excluded annotations (open known findings) are real dispatch points, and the checker does reject their programs -/
+theorem {pid}_T1_excluded_are_rejected : Gen.bad.all (fun t => inU Gen.progTys t && !(progOK Gen.env [] Gen.progTys t)) = true := by decide +kernel
+""")
+    progs = (f"{pid}T1p", progs[1])
+    final = imports + f"import {pid}T1p\n" + TOTAL_HDR + lemma + f"""
+theorem {pid}_T1_classes : clsesOK Gen.env Gen.bad Gen.progTys = true := {pid}_T1_classes_chk
+
+/-- **T1 on the regenerated package.**  For every annotation that passes the structural closure
+    check and every JSON value with a typed reading at it (no bound on size or nesting; every union
+    alternative), structuring succeeds and returns a typed reading of that value: an instance of the
+    requested class, recursively, at a union an instance of an alternative the value is valid for. -/
+theorem {pid}_structure_total (ty : PyTy) (k : Nat) (hty : lightOK Gen.env Gen.bad Gen.progTys k ty = true)
+    (j : Json) (v : PyVal) (n : Nat) (h : rep Gen.env Gen.bad n ty v j = true) :
+    ∃ v' m, structTy Gen.env m ty j = .ok v' ∧ ∃ k', rep Gen.env Gen.bad k' ty v' j = true :=
+  T1 Gen.env Gen.bad Gen.progTys {pid}_T1_progs {pid}_T1_classes ty k hty j v n h
+
+/-- the theorem applies to every generated class (request, response, notification, structure) ... -/
+theorem {pid}_T1_roots : Gen.env.pkg.classes.all (fun c => lightOK Gen.env Gen.bad Gen.progTys 1 (.cls c.name)) = true := by decide +kernel
+/-- ... and its hypothesis is satisfiable: a concrete nested value has a typed reading (kernel evaluation, a test) -/
+example : (match structTy Gen.env 30 (.cls n!"Range") (.obj [(n!"start", .obj [(n!"line", .int 1), (n!"character", .int 2)]), (n!"end", .obj [(n!"line", .int 3), (n!"character", .int 4)])]) with
+           | .ok v => rep Gen.env Gen.bad 30 (.cls n!"Range") v (.obj [(n!"start", .obj [(n!"line", .int 1), (n!"character", .int 2)]), (n!"end", .obj [(n!"line", .int 3), (n!"character", .int 4)])])
+           | .error _ => false) = true := by decide +kernel
+
+#print axioms {pid}_T1_progs
+#print axioms {pid}_T1_excluded_are_rejected
+#print axioms {pid}_T1_classes
+#print axioms {pid}_structure_total
+#print axioms {pid}_T1_roots
+"""
+    names = [f"{pid}_T1_progs", f"{pid}_T1_excluded_are_rejected", f"{pid}_T1_classes", f"{pid}_structure_total", f"{pid}_T1_roots"]
+    return [[genbad], layer + [progs], [(f"{pid}T1", final)]], names
+
+
+def localise_total(ctx):
+    """which program / class the dispatch checker rejects (names decoded), for the report"""
+    import re
+    import subprocess
+    f = common.write_module(ctx.work, "LocaliseT1", LOCALISE)
+    p = subprocess.run(["lean", "--run", str(f)], capture_output=True, text=True, env=common.lean_env(ctx.work), cwd=str(ctx.work), timeout=900)
+
+    def dec(m):
+        n = int(m.group(0))
+        b = n.to_bytes((n.bit_length() + 7) // 8, "big")
+        return '"' + b[1:].decode("utf8", "replace") + '"' if b[:1] == b"\x01" and n > 300 else m.group(0)
+    return [re.sub(r"\b\d{5,}\b", dec, l).replace("LspVerif.PyTy.", "") for l in p.stdout.splitlines() if l.startswith(("PROG", "CLS"))]
+
+
+def validity_stream(ctx, S):
+    """Every generated metamodel-valid value must have a typed reading (the hypothesis of T1/T2), unless it
+    passes through an annotation excluded for an open known finding.  Ties `rep` to what the property calls valid."""
+    vals = [(name, j) for name, tag, j in S.valid_stream()]
+    text = "".join(f"{name} " + json.dumps(j, ensure_ascii=False, separators=(",", ":")) + "\n" for name, j in vals)
+    main = common.write_module(ctx.work, "MainRep", MAIN_REP)
+    out = common.lean_run(ctx.work, main, text).split("\n")[:-1]
+    cnt = {}
+    problems = []
+    for (name, j), o in zip(vals, out):
+        cnt[o] = cnt.get(o, 0) + 1
+        if o not in ("rep:true", "rep:excluded", "struct-err", "unspecified"):
+            problems.append((name, j, o))
+    ctx.dist["typed_reading_of_generated_valid_values"] = cnt
+    ctx.corr["evaluations"] += len(vals)
+    return problems, cnt
+
+
 def lean_json(j) -> str:
     if j is None:
         return ".null"
@@ -156,7 +265,7 @@ def witness_module(ctx, pid):
     return "\n".join(lines) + "\n", names
 
 
-def run(ctx, pid, *, ops_fn, inst_fn=None, theorems=(), trusted=(), assumptions=()):
+def run(ctx, pid, *, ops_fn, inst_fn=None, theorems=(), trusted=(), assumptions=(), total=False):
     ctx.trusted += [
         "translators x_meta.py, x_pkg.py, x_valid.py, x_hooks.py (live functions' source -> hook programs; default-disambiguator closures read from the functions cattrs built)",
         "hand-written model of the cattrs 24.1 / attrs 24.2 fragment the package uses (Core/Cattrs.lean), validated on every run by the correspondence stream",
@@ -183,6 +292,22 @@ def run(ctx, pid, *, ops_fn, inst_fn=None, theorems=(), trusted=(), assumptions=
             failed = ctx.add_lean_results(res, theorems_expected={layers[-1][-1]: list(theorems)})
             for r in failed:
                 problems.append(f"{r.name}: {r.out[-1500:]}")
+        if total:
+            tl, tnames = total_layers(ctx, pid)
+            for layer in tl:
+                for (mn, text) in layer:
+                    common.write_module(ctx.work, mn, text)
+            tlayers = [[mn for mn, _ in layer] for layer in tl]
+            res = common.lean_compile(ctx.work, tlayers)
+            hits = common.audit_sources([ctx.work / (mn + ".lean") for l in tlayers for mn in l])
+            if hits:
+                raise Broken(f"forbidden constructs: {hits}")
+            failed = ctx.add_lean_results(res, theorems_expected={tlayers[-1][-1]: tnames})
+            if failed:
+                loc = localise_total(ctx)
+                ctx.notes.append("T1: the dispatch checker rejects: " + " | ".join(loc[:8]))
+                problems.append(f"T1 ({pid}_structure_total) no longer checks on the regenerated environment; the dispatch checker rejects: "
+                                + " | ".join(l[:300] for l in loc[:6]) + " || " + failed[0].out[-600:])
         wtext, wnames = witness_module(ctx, pid)
         if wtext:
             common.write_module(ctx.work, "Witness", wtext)
@@ -192,8 +317,14 @@ def run(ctx, pid, *, ops_fn, inst_fn=None, theorems=(), trusted=(), assumptions=
                 ctx.notes.append("known-finding witness theorem no longer holds in the model (finding repaired or model drifted): " + r.out[-400:])
         timing["kernel obligations"] = round(_t.time() - t0, 1)
         t0 = _t.time()
-        ops = ops_fn(streams(ctx))
+        S = streams(ctx)
+        ops = ops_fn(S)
         problems += correspondence(ctx, ops)
+        if total:
+            vp, cnt = validity_stream(ctx, S)
+            ctx.notes.append(f"generated valid values with a typed reading in the model (hypothesis of T1): {cnt}")
+            for name, j, o in vp[:3]:
+                problems.append(f"a generated metamodel-valid value of {name} has no typed reading in the model ({o}): {json.dumps(j)[:300]}")
         timing["correspondence"] = round(_t.time() - t0, 1)
         for o in ops[:: max(1, len(ops) // 3)][:3]:
             ctx.sample(o[:400])
